@@ -27,6 +27,10 @@ func UnwrapPtr(x any) any {
 		return x
 	}
 	for refVal.Kind() == reflect.Ptr {
+		if refVal.IsNil() {
+			// a nil pointer has nothing to unwrap
+			return refVal.Interface()
+		}
 		refVal = refVal.Elem()
 	}
 	return refVal.Interface()
